@@ -17,6 +17,10 @@ CLAIMS = {
  "C10": "Semphore: 2-5 actors doing wait / wait_timeout (0..3 ms incl. sub-ms) / try_wait / post from threads and coroutines with initial value 0-3, a feeder guaranteeing enough permits, optional cancel of a waiter. Online: successful waits <= initial + posts invoked; quiescence: get_value == initial + posts - successes and the permits are takeable; timeouts never early; all waits return. SyncFlag: waiters before/during/after fire, timed waiters racing the fire, monitor: never un-fired after fire returned, wait_timeout false only at/after the deadline and only if fire had not returned before it.",
  "C11": "Condvar ticket protocol (tickets / broadcast flag under one Mutex; wait, wait_while, wait_timeout; notify inside or outside the lock; cancel of a waiter): every waiter gets its ticket (a swallowed notification = hung verdict), mutex exclusively re-acquired when wait returns (occupancy), mutex free and unpoisoned at the end. Barrier(2-4) x 1-3 generations: nobody returns before the n-th arrival, exactly one leader per generation, all return. WaitGroup: wait returns only after every other clone's drop began, and returns.",
  "C12": "2-4 actors doing read / write / try_read / try_write with yields and sleeps inside, in clean state and after a writer panicked holding the guard (guards recovered from PoisonError / TryLockError::Poisoned and used), optional cancel of one coroutine at a random point (also while it holds guards). Online: writers <= 1 and writers*readers == 0, data stable under guards, no panic escapes a guard drop; end: try_write, try_read, try_write succeed after all guards are gone, not poisoned unless a writer panicked, every actor finished.",
+ "C04": "The real spmc queue in three families: (a) the scheduler's shape, 2-3 threads each owning a Local with Steal handles to the others (push_back / pop / steal_into), (b) the raw queue with one owner and 1-3 consumers (pop / bulk_pop), pre-rolled to block boundaries, (c) heavy traffic over several blocks with the allocator in LIFO-reuse or poison mode and long preemptions of a taker, which reaches the 'block freed and re-allocated at the same address' (ABA) case. Owners keep pushing while a taker still has an operation outstanding (a claimed slot completes once filled). Oracles: every task obtained exactly once (explicit taken table: a task silently dropped by the queue is a loss), canaries + drop table (never an uninitialised or freed slot), per-consumer ascending order and contiguous bulk batches on the raw queue, all operations return.",
+ "C08": "1-4 actors (thread/coroutine) each doing 1-3 timed waits of random kinds - sleep, mpsc/mpmc recv_timeout, Semphore/SyncFlag/Condvar wait_timeout, Blocker::park(timeout), coroutine::park_timeout - with d from {0, 1 ns, 999 ns, 0.5 ms, 999 999 ns, 1 ms, 1 ms+1 ns, 1.5 ms, 2 ms+1 ns, 3 ms, 10 ms, 100 ms, 1 s, 1 h} drawn from a per-run palette so equal intervals share a timer list and different ones compete in the heap; a third of the waits is satisfied by a helper before / just before / at / after the deadline (exercises del_timer / remove of head, middle, last entries). Oracles: Timeout never before d (exact, virtual clock), a wait nobody satisfied never reports success, every wait returns (hung verdict), and in quiet runs (no stall, no tick) a timer fires within 1 ms of its deadline (ns-exact for sleep and thread waits, whole-ms for Park based waits).",
+ "C14": "coroutine::scope with 1-4 children (nested scope inside a child, explicit ScopedJoinHandle joins, scripted child panics) owned by a thread or a coroutine, with a panic of the owner inside the scope body or a cancel of the owner at a random point (also while it waits at the scope end); select! with 2-3 arms one of which waits in join! (safe code only) while another arm wins. A frame token whose Drop marks the owner's frame dead is checked by every child at each of its steps; oracles: no child / arm ever runs after the frame died, scope/select! returns only when started == ended children and no arm is executing, explicit joins return the child's value, the first child panic reaches the owner, owner outcome is the scripted one, no crash.",
+ "C19": "mpsc_list_v1: 1-3 producers push 1-5 entries and hand the Entry handles to the single consumer, which interleaves pop, pop_if, peek, is_empty, remove(handle) of oldest / newest / already consumed entries and handle drops while the producers append; plain mpsc_list: push/pop/is_empty. Oracles: every entry consumed exactly once (pop xor remove), remove returns the handle's own value and never a consumed one, popped values respect the real-time push order, 'empty' answers only if the list could have been empty, push's head report sound in both directions, remove -> None on an unconsumed entry only while a possible direct successor push is in flight (the documented exception), drop table, plain list: FIFO linearizability.",
  "C03": "1-3 producers and one consumer (pop, bulk_pop, peek+pop, len, is_empty) on the real mpsc/spsc block queues, pre-rolled so the concurrent phase straddles block boundaries and block recycling, optional drop with values inside; spurious compare_exchange_weak failures. Oracles: canary payloads + drop table (exactly-once, no uninitialised/freed slot), FIFO linearizability of the whole history (exact for one consumer), len/is_empty bounds.",
 }
 
